@@ -972,6 +972,26 @@ pub fn judge_under_faults(plan: &ClientPlan, run: &ClientRun) -> Judged {
                         j.stats.hit("probe.summary_compared");
                     }
                 }
+                // bounded liveness of the call itself: when the only trouble of the whole run were connections
+                // the terminal closed cleanly between two exchanges (nothing half-done anywhere, every connect
+                // succeeds), a commit / cancel the client accepted - it closes the token - also *acts*: the
+                // reversal for that token's receipt reaches the terminal (C07 "act on exactly that token's
+                // receipt number and close the token", C08 "asks the terminal to release ...")
+                {
+                    let only_idle_closes = !all_fired.is_empty()
+                        && all_fired.iter().all(|f| f.kind == FaultKind::CloseIdle)
+                        && run.connect_log.iter().all(|(_, c)| matches!(c, crate::client::ConnectSpec::Ok));
+                    if only_idle_closes && !issued_for_token.is_empty() {
+                        j.stats.hit("probe.call_after_idle_close");
+                        let acted = pk.iter().any(|p| matches!(p.cf, (0x06, 0x23) | (0x06, 0x25)) && p.get_bcd(0x87).map(|r| issued_for_token.contains(&(r as u16))).unwrap_or(false));
+                        if !acted {
+                            j.fail("C07", "closed_without_acting", name, format!("{name}({token:?}) closed the token (it returned {}), yet no reversal for its receipt {:?} reached the terminal - the connection had merely been closed while idle", o.result.class(), issued_for_token));
+                            if is_commit {
+                                j.fail("C08", "commit_fields", "commit/never_sent", format!("commit({token:?}) closed the token, yet no PartialReversal for receipt {:?} reached the terminal - the connection had merely been closed while idle", issued_for_token));
+                            }
+                        }
+                    }
+                }
                 // bounded liveness of the clean-up: when the only trouble of this call was a connection
                 // that the terminal closed cleanly *between* two exchanges (nothing half-done anywhere),
                 // the client reconnects and the clean-up still runs to its end: end-of-day reaches the terminal
